@@ -50,6 +50,13 @@ def configurations(rng, tier):
         for nq in (0, 1, 2):
             yield "unencodable-request", Cfg(service="unencodable", path=path, retries=0, c_max=206, s_max=206,
                                              extra=[(rng.choice(behs[:4]), "cpt", 5, 5) for _ in range(nq)])
+    # 1b". the requesting device itself has been told to be quiet (DeviceCommunicationControl): what its application submits
+    #      meanwhile cannot go out - and still ends with one outcome
+    for path in ("direct", "iocb"):
+        for state in ("disable", "disableInitiation"):
+            for nq in (0, 1):
+                yield "requester-communication-disabled", Cfg(client_dcc=state, path=path, retries=0, c_max=206, s_max=206,
+                                                              extra=[("ack", "cpt", 5, 5)] * nq)
     # 1c. IOCB queue: follow-up requests submitted when the first completes (from its callback, directly or through
     #     deferred()), with other requests already queued behind it; queued requests that are aborted locally the moment they
     #     start (too long for a peer without segmentation) with more behind them
